@@ -485,6 +485,17 @@ def _split_oracle(d, parts, nl, w):
             nsep += len([m for m in re.finditer(rx1, n.chars, flags=re.S) if m.end() > m.start()])
     if len(parts) > nsep + 1:
         return ('split-children', {'parts': len(parts), 'separators_in_top_level_chars': nsep})
+    # completeness: no separator is left inside a top-level chars node of a part (of any part when the number of
+    # splits is unlimited, of every part but the last one otherwise)
+    if not sep_may_be_empty(sp):
+        for pi, p in enumerate(parts):
+            if ms is not None and pi >= ms:
+                break
+            for n in p.nodelist:
+                if n is not None and _is_chars(n):
+                    m = re.search(rx1, n.chars, flags=re.S)
+                    if m and m.end() > m.start():
+                        return ('split-missed-separator', {'part': pi, 'node': treedump.dump(n), 'at': m.start()})
     # max_split
     if ms is not None and len(parts) > ms + 1:
         return ('split-maxsplit', {'parts': len(parts), 'max_split': ms})
